@@ -1079,6 +1079,9 @@ func (e *Eval) escape(fr *frame, st State, v AV, why string) {
 		if x.Obj != nil {
 			e.setContent(fr, st, x.Obj, topContent(x.Obj, why))
 		}
+		if x.WinOf != nil {
+			e.setContent(fr, st, x.WinOf, topContent(x.WinOf, why))
+		}
 	case SliceV:
 		e.setContent(fr, st, x.O, topContent(x.O, why))
 	case CMapV:
@@ -1168,6 +1171,9 @@ func (e *Eval) makeSlice(fr *frame, x *ssa.MakeSlice, st State) AV {
 			bv := BytesV{Src: "zero", HasVal: true, Val: Layout{}}
 			if n.Kind == ikLin {
 				bv.LenKnown, bv.Len = true, n.L
+			}
+			if n.Kind == ikMinLen {
+				bv.LenMin = n.ML
 			}
 			e.setContentFresh(st, o, BufC{bv})
 			r := bv
@@ -1291,6 +1297,39 @@ func (e *Eval) binop(fr *frame, x *ssa.BinOp) AV {
 }
 
 func (e *Eval) arith(fr *frame, x *ssa.BinOp, a, b IntV) IntV {
+	if a.Kind == ikMinLen || b.Kind == ikMinLen {
+		ca, aC := a.Const()
+		cb, bC := b.Const()
+		switch {
+		case x.Op == token.ADD && a.Kind == ikMinLen && bC:
+			m := *a.ML
+			m.Const += cb
+			return IntV{Kind: ikMinLen, ML: &m}
+		case x.Op == token.ADD && b.Kind == ikMinLen && aC:
+			m := *b.ML
+			m.Const += ca
+			return IntV{Kind: ikMinLen, ML: &m}
+		case x.Op == token.SUB && a.Kind == ikMinLen && bC:
+			m := *a.ML
+			m.Const -= cb
+			return IntV{Kind: ikMinLen, ML: &m}
+		case x.Op == token.SUB && b.Kind == ikMinLen && aC:
+			m := *b.ML
+			m.Const, m.Coef = ca-m.Const, -m.Coef
+			return IntV{Kind: ikMinLen, ML: &m}
+		case x.Op == token.SUB && a.Kind == ikMinLen && b.Kind == ikMinLen && a.ML.Sym == b.ML.Sym && a.ML.Coef == b.ML.Coef:
+			return CInt(a.ML.Const - b.ML.Const)
+		}
+		la, ha, oka := a.Bounds(0)
+		lb, hb, okb := b.Bounds(0)
+		if oka && okb && x.Op == token.ADD {
+			return RangeInt(la+lb, ha+hb)
+		}
+		if oka && okb && x.Op == token.SUB {
+			return RangeInt(la-hb, ha-lb)
+		}
+		return TopInt("arithmetic on a value-dependent length")
+	}
 	T := fr.T()
 	ca, aConst := a.Const()
 	cb, bConst := b.Const()
@@ -1744,6 +1783,9 @@ func (e *Eval) lenOf(fr *frame, a AV, st State) IntV {
 		if v.LenKnown {
 			return LinInt(v.Len)
 		}
+		if v.LenMin != nil {
+			return IntV{Kind: ikMinLen, ML: v.LenMin}
+		}
 		if v.Param != nil && e.Ctx != nil && e.Ctx.SizeRange != nil && e.Ctx.SizeKind == "L" {
 			return RangeInt(e.Ctx.SizeRange[0], e.Ctx.SizeRange[1])
 		}
@@ -1926,6 +1968,11 @@ func (e *Eval) slice(fr *frame, x *ssa.Slice, st State) AV {
 					r := BytesV{LenKnown: true, Len: K(ch - cl), HasVal: true, Val: v, Src: src.Src}
 					if b.Obj != nil && cl == 0 && ch == total {
 						r.Obj = b.Obj
+					} else if b.Obj != nil || b.WinOf != nil {
+						r.WinOf = b.Obj
+						if b.WinOf != nil {
+							r.WinOf = b.WinOf
+						}
 					}
 					return r
 				}
@@ -1935,10 +1982,18 @@ func (e *Eval) slice(fr *frame, x *ssa.Slice, st State) AV {
 		if okl && okh {
 			r.LenKnown, r.Len = true, K(ch-cl)
 		}
-		if b.Obj != nil {
-			// a window into a mutable buffer: writes through it are not modelled
+		if b.Obj != nil || b.WinOf != nil {
+			// a window into a mutable buffer: writes through it change (and, unless recognised, blur) the buffer
 			r.Obj = nil
 			r.Src = "⊤: window into buffer"
+			r.WinOf = b.Obj
+			if b.WinOf != nil {
+				r.WinOf = b.WinOf
+			}
+			if x.High == nil && b.Obj != nil {
+				w := lo
+				r.WinLo = &w
+			}
 		}
 		if b.Param != nil {
 			r.Param = b.Param
@@ -2211,6 +2266,9 @@ func (e *Eval) storeElem(fr *frame, x *ssa.Store, el *ElemRef, v AV, st State) {
 	case BytesV:
 		if b.Obj != nil {
 			e.setContent(fr, st, b.Obj, BufC{BytesV{LenKnown: b.LenKnown, Len: b.Len, Src: "⊤: element written directly"}})
+		}
+		if b.WinOf != nil {
+			e.setContent(fr, st, b.WinOf, topContent(b.WinOf, "element written through a sub-slice"))
 		}
 		if b.Param != nil {
 			e.event("F4", Violated, x, "store into caller-owned slice %s", b.Param.Name())
